@@ -174,17 +174,19 @@ DrainFrom(s) == LET v == Value(s)
                     step == [v |-> v[1], ok |-> n[1], vc |-> v[2], nc |-> n[3]]
                 IN IF n[1] THEN <<step>> \o DrainFrom(n[2]) ELSE <<step>>
 FinalOf(s) == LET n == Next(s) IN IF n[1] THEN FinalOf(n[2]) ELSE n[2]
-\* what Value() of the exhausted iterator answers (nobody promises anything about it): <<item>> - e.g. the element a
-\* takeWhile rejected - or <<"panic">> when it reaches a join whose embedded iterator is the nil left by the last
-\* function result
+\* what Value() of the exhausted iterator answers (nobody promises anything about it): [panic |-> FALSE, v |-> item] -
+\* e.g. the element a takeWhile rejected - or [panic |-> TRUE, v |-> 0] when it reaches a join whose embedded iterator
+\* is the nil left by the last function result
 RECURSIVE Dangling(_)
 Dangling(s) == CASE s.t = "nil" -> TRUE
                  [] s.t \in {"slice", "elem"} -> FALSE
                  [] s.t \in {"tw", "flt", "map", "plus"} -> Dangling(s.s)
                  [] s.t = "join" -> Dangling(s.cur)
-PostOf(f) == IF Dangling(f) THEN <<"panic">> ELSE <<Value(f)[1]>>
+PostOf(f) == IF Dangling(f) THEN [panic |-> TRUE, v |-> 0] ELSE [panic |-> FALSE, v |-> Value(f)[1]]
+NoPost == [panic |-> FALSE, v |-> 0]
+SamePost(a, b) == a.panic = b.panic /\ (a.panic \/ a.v = b.v)
 Run(e) == LET k == Construct(e) IN
-          IF k[1] = Nil THEN [nil |-> TRUE, cc |-> k[2], steps |-> <<>>, post |-> <<>>]
+          IF k[1] = Nil THEN [nil |-> TRUE, cc |-> k[2], steps |-> <<>>, post |-> NoPost]
           ELSE [nil |-> FALSE, cc |-> k[2], steps |-> DrainFrom(k[1]), post |-> PostOf(FinalOf(k[1]))]
 Values(steps) == [i \in 1..Len(steps) |-> steps[i].v]
 
@@ -223,16 +225,18 @@ SeqD1(S) == SeqD0(S) \cup SeqU(SeqD0(S)) \cup Binary(SeqD0(S), SeqD0(S))
 SeqD2(S) == SeqD0(S) \cup SeqU(SeqD1(S)) \cup Binary(SeqD1(S), SeqD1(S))
 \* depth 3, one side of a Plus being a leaf
 SeqD3(S) == SeqU(SeqD2(S)) \cup Binary(SeqD2(S), SeqD0(S)) \cup Binary(SeqD0(S), SeqD2(S))
-(* Universes are explored in two moves so that TLC's workers share the work: a tagged base expression <<"pick", e>> is
-   picked (Init), then wrapped once (an action) giving <<"seq", e'>>.  shape "d2": all expressions of depth <= 2; shape "d3": depth <= 3 where one side of
-   an outermost Plus is a leaf.  (Parameterless constant definitions are evaluated by TLC at start-up, hence the
-   selection by name.) *)
+(* Universes are explored in moves so that TLC's workers share the work: a tagged base expression <<"pick", e>> is
+   picked (Init), then wrapped by an action: <<"pick", e>> -> <<"seq", e'>> (final, e' gets built and drained), for
+   shape "d3" through an intermediate <<"pick2", e'>>.
+   shape "d2": all expressions of depth <= 2; shape "d3": depth <= 3 where one side of an outermost Plus is a leaf.
+   (Parameterless constant definitions are evaluated by TLC at start-up, hence the selection by name.) *)
 SliceSet(w) == IF w = "wide" THEN SlicesW ELSE SlicesS
 Tag(t, E) == {<<t, e>> : e \in E}
-SeqBase(shape, w) == Tag("pick", CASE shape = "d1" -> SeqD0(SliceSet(w)) [] shape = "d2" -> SeqD1(SliceSet(w)) [] shape = "d3" -> SeqD2(SliceSet(w)))
+SeqBase(shape, w) == Tag("pick", IF shape = "d1" THEN SeqD0(SliceSet(w)) ELSE SeqD1(SliceSet(w)))
 SeqWraps(tag, e, shape, w) ==
-  Tag("seq", {e} \cup SeqU({e})
-      \cup (CASE shape = "d1" -> Binary({e}, SeqD0(SliceSet(w)))
-             [] shape = "d2" -> Binary({e}, SeqD1(SliceSet(w)))
-             [] shape = "d3" -> Binary({e}, SeqD0(SliceSet(w))) \cup Binary(SeqD0(SliceSet(w)), {e})))
+  LET D0 == SeqD0(SliceSet(w))
+      full == {e} \cup SeqU({e}) \cup Binary({e}, IF shape = "d1" THEN D0 ELSE SeqD1(SliceSet(w)))    \* base D(n) -> all of D(n+1)
+  IN CASE tag = "pick" /\ shape \in {"d1", "d2"} -> Tag("seq", full)
+       [] tag = "pick" /\ shape = "d3" -> Tag("pick2", full)
+       [] tag = "pick2" -> Tag("seq", SeqU({e}) \cup Binary({e}, D0) \cup Binary(D0, {e}))
 ====
